@@ -304,6 +304,31 @@ func c10Coherence(c *Ctx, f *ssa.Function, fieldC, tagC int64) {
 		}
 		return true
 	}
+	// an index entry may be (over)written under key k only where k is known to have no entry (failed lookup of the
+	// same key) or after whatever k held was removed from both maps (Point.Delete(k)): otherwise the value the old
+	// entry described stays in its map with no entry — or, under the other kind, next to the new value
+	allInstrs(f, func(in ssa.Instruction) {
+		mu, ok := in.(*ssa.MapUpdate)
+		if !ok || !isPointMap(mu.Map, "Meta") {
+			return
+		}
+		why := ""
+		for _, ec := range factsAt(mu) {
+			if ex, isE := ec.Cond.(*ssa.Extract); isE && ex.Index == 1 && !ec.Pol {
+				if lk, isL := ex.Tuple.(*ssa.Lookup); isL && lk.CommaOk && isPointMap(lk.X, "Meta") && lk.Index == mu.Key {
+					why = "the key was looked up and has no entry"
+				}
+			}
+		}
+		allInstrs(f, func(i2 ssa.Instruction) {
+			if call, isC := i2.(*ssa.Call); isC && call.Call.StaticCallee() != nil && call.Call.StaticCallee().Name() == "Delete" &&
+				len(call.Call.Args) == 2 && namedOf(call.Call.Args[0].Type()) == "input.Point" && call.Call.Args[1] == mu.Key && precedes(call, mu) {
+				why = "Point.Delete(k) precedes it on every path"
+			}
+		})
+		r.Ob("COHERENCE", fmt.Sprintf("%s Meta[k] = … #%d replaces no live entry", relName(f), ordinalOf(f, in)), t.Pos(mu.Pos()), why != "",
+			"the index entry of a key may be written only where the key has no entry or was deleted from both maps first ("+why+") — an overwritten entry of the other kind leaves its value behind: the key is then a tag and a field at once")
+	})
 	allInstrs(f, func(in ssa.Instruction) {
 		switch x := in.(type) {
 		case *ssa.MapUpdate:
